@@ -43,6 +43,14 @@
 //!   `last_badness:=1000000; glue_set:=1.0` (the sign is *not* touched, so a box with no
 //!   shrinkability stays unset); otherwise `o=normal`, non-empty →
 //!   `last_badness:=badness(-x,total_shrink[normal])` (§667).
+//! * §666 (inside the overfull branch): TeX may append the `\overfullrule` rule to the list
+//!   *after* the dimensions are known; the model ignores it, `overfull_branch` tells when.
+//!
+//! Sign of the ratio: `ds::HBox` has no `glue_sign`; `HBox::pack` stores `excess/total`, so
+//! a shrinking box (positive shrinkability) has a negative ratio, which is also what
+//! `boxworks::tex::parse_glue_set` produces from TeX's `glue set - r`. [`compare_box`]
+//! demands the convention-free identity `natural + ratio·total = set width`, where the set
+//! width is the box width, or `natural − total_shrink` for an overfull box (ratio −1).
 
 use boxworks::ds;
 
@@ -93,15 +101,21 @@ pub struct Deviations {
     /// Box and rule nodes contribute `height − shift` (rules: `height`) to the natural
     /// *width* and their `width` to the *height* maximum (fields swapped).
     pub box_rule_width_height_swapped: bool,
+    /// The glue ratio of an overfull box is `+1` although every other shrinking box gets the
+    /// negative ratio `excess/total_shrink`: read with the same convention (set width =
+    /// natural + ratio·total) the overfull box *grows* by its shrinkability, and
+    /// (order normal, ratio +1) is indistinguishable from "stretch by exactly the total stretch".
+    pub overfull_ratio_positive: bool,
 }
 
 impl Deviations {
-    pub const NONE: Deviations = Deviations { zero_total_hides_lower_orders: false, box_rule_width_height_swapped: false };
-    pub const FLAG_NAMES: [&'static str; 2] = ["zero_total_hides_lower_orders", "box_rule_width_height_swapped"];
+    pub const NONE: Deviations = Deviations { zero_total_hides_lower_orders: false, box_rule_width_height_swapped: false, overfull_ratio_positive: false };
+    pub const FLAG_NAMES: [&'static str; 3] = ["zero_total_hides_lower_orders", "box_rule_width_height_swapped", "overfull_ratio_positive"];
     pub fn with_flag(mut self, name: &str) -> Self {
         match name {
             "zero_total_hides_lower_orders" => self.zero_total_hides_lower_orders = true,
             "box_rule_width_height_swapped" => self.box_rule_width_height_swapped = true,
+            "overfull_ratio_positive" => self.overfull_ratio_positive = true,
             _ => panic!("unknown hpack deviation flag {name}"),
         }
         self
@@ -150,6 +164,9 @@ pub struct Packed {
     /// TeX's `last_badness` after the call.
     pub last_badness: i64,
     pub empty: bool,
+    /// Only set by the deviation `overfull_ratio_positive`: the signed ratio of an overfull
+    /// box is expected to be `+1` instead of `−1`.
+    pub dev_overfull_ratio_positive: bool,
 }
 
 impl Packed {
@@ -290,6 +307,7 @@ pub fn hpack(items: &[Item], target: Target, dev: Deviations) -> Result<Packed, 
         overfull_branch: false,
         last_badness: 0,
         empty,
+        dev_overfull_ratio_positive: dev.overfull_ratio_positive,
     };
     if excess == 0 {
         return Ok(p);
@@ -355,8 +373,10 @@ pub fn order_name(o: usize) -> &'static str {
 /// Describe a `ds::Horizontal` list for the model. Character metrics come from
 /// `font_repo` (a missing character is an error: TeX never builds such a node).
 /// Mark/insertion/adjust/whatsit/math nodes contribute nothing (TeX §651, §655, §1360;
-/// `ds::Math` carries no width). Leader glue has no leader box in `ds`, so it is treated
-/// as ordinary glue.
+/// `ds::Math` carries no width). Leader glue (`GlueKind::{Aligned,Centered,Expanded}Leader`)
+/// has no leader box in `ds`, so TeX §656's "leader box height and depth count" has nothing
+/// to apply to and it is described as ordinary glue (`leader: None`); once `ds::Glue` gains a
+/// leader box, feed its height and depth into `Item::Glue::leader` here.
 pub fn items_from_ds<F: boxworks::FontRepo>(font_repo: &F, list: &[ds::Horizontal]) -> Result<Vec<Item>, Unsupported> {
     use ds::Horizontal as H;
     let mut out = Vec::with_capacity(list.len());
@@ -390,9 +410,10 @@ pub fn items_from_ds<F: boxworks::FontRepo>(font_repo: &F, list: &[ds::Horizonta
 
 /// Exact comparison of a produced `ds::HBox` with the model's box: dimensions, glue
 /// order, |glue ratio| as an exact rational (cross-multiplied in `i128` from the public
-/// `num`/`den`), overfull ⇒ |ratio| = 1, unset ⇒ ratio 0, and — whenever glue is set and
-/// the box is not overfull — the fill identity `natural + ratio·total == width` with the
-/// implementation's own signed ratio.
+/// `num`/`den`), unset ⇒ ratio 0, and — whenever glue is set — the identity of the set width
+/// with the implementation's own signed ratio: `natural + ratio·total == width` when the box
+/// is not overfull, `natural + ratio·total_shrink == natural − total_shrink` (ratio = −1)
+/// when it is overfull.
 pub fn compare_box(p: &Packed, b: &ds::HBox) -> Result<(), String> {
     if b.width.0 as i64 != p.width {
         return Err(format!("width {}sp, TeX {}sp (natural width {}sp)", b.width.0, p.width, p.natural_width));
@@ -442,6 +463,23 @@ pub fn compare_box(p: &Packed, b: &ds::HBox) -> Result<(), String> {
                 let rhs = (p.width as i128) * den;
                 if lhs != rhs {
                     return Err(format!("set glue does not fill the box (sign of the ratio): {}", render()));
+                }
+            } else {
+                // §664: glue_set:=unity with glue_sign=shrinking — the box "shrinks by exactly
+                // its shrinkability": natural + (num/den)·total_shrink == natural − total_shrink,
+                // the same reading of the signed ratio as in the identity above (which pack's
+                // own non-overfull shrinking, ratio = excess/total_shrink, obeys).
+                let want_sign: i128 = if p.dev_overfull_ratio_positive { 1 } else { -1 };
+                if num != want_sign * den {
+                    let set = (p.natural_width as i128) + (num * (p.active_total as i128)) / den;
+                    return Err(format!(
+                        "an overfull box must shrink by exactly its shrinkability: the signed glue ratio must be -1 (TeX: glue_set=1.0 with glue_sign=shrinking, shown as `glue set - 1.0`; every other shrinking box of HBox::pack has ratio excess/total_shrink < 0), but it is {}/{}: read like any other ratio the contents are set to {}sp instead of natural - shrink = {}sp, and the box cannot be told from one that stretches by exactly its stretchability: {}",
+                        num,
+                        den,
+                        set,
+                        p.natural_width - p.active_total,
+                        render()
+                    ));
                 }
             }
         }
